@@ -37,6 +37,11 @@ structure World (U V : Type) where
   runner  : V
   /-- the truth test (`__bool__` / `__len__`): may run user code -/
   truthy  : V → U → Option (Bool × U)
+  /-- iterate to exhaustion (`tuple(x)`, `list(x)`, unpacking): may run user code -/
+  iter    : V → U → Option (List V × U)
+  tupleOf : List V → V
+  /-- `o[lo:up:step]`; the bound expressions are the world's to interpret -/
+  getslice : V → Option Expr → Option Expr → Option Expr → U → Option (V × U)
 
 abbrev T (V : Type) := List (String × V)
 
@@ -56,6 +61,9 @@ def isGlue' : Expr → Bool
   | .subscript _ _ => true
   | .ifExp _ _ _ => true
   | .boolOp _ [_, _] => true
+  | .unaryOp .uSub (.const (.int _)) => true
+  | .call (.name "tuple") [_] [] => true
+  | .call (.name "list") [_] [] => true
   | .call (.name "setattr") [_, .const (.str _), _] [] => true
   | .call (.attribute _ "__setitem__") [_, _] [] => true
   | .call (.attribute (.call (.name "__import__") [.const (.str _)] []) _) [_, _] [] => true
@@ -63,6 +71,10 @@ def isGlue' : Expr → Bool
   | _ => false
 
 def isGlue (e : Expr) : Bool := isChain e || isGlue' e
+
+def isSliceE : Expr → Bool
+  | .slice .. => true
+  | _ => false
 
 variable {U V : Type}
 
@@ -78,9 +90,16 @@ mutual
         EvL W es u t vs u' t' → Ev W (.list es) u t (W.listOf vs) u' t'
     | attr (o : Expr) (a : String) {u u1 u2 : U} {t t1 : T V} {ov v : V} :
         Ev W o u t ov u1 t1 → W.getattr ov a u1 = some (v, u2) → Ev W (.attribute o a) u t v u2 t1
-    | sub (o i : Expr) {u u1 u2 u3 : U} {t t1 t2 : T V} {ov iv v : V} :
+    | sub (o i : Expr) {u u1 u2 u3 : U} {t t1 t2 : T V} {ov iv v : V} : isSliceE i = false →
         Ev W o u t ov u1 t1 → Ev W i u1 t1 iv u2 t2 → W.getitem ov iv u2 = some (v, u3) →
         Ev W (.subscript o i) u t v u3 t2
+    | subSlice (o : Expr) (a b c : Option Expr) {u u1 u2 : U} {t t1 : T V} {ov v : V} :
+        Ev W o u t ov u1 t1 → W.getslice ov a b c u1 = some (v, u2) → Ev W (.subscript o (.slice a b c)) u t v u2 t1
+    | negInt (n : Int) (u : U) (t : T V) : Ev W (.unaryOp .uSub (.const (.int n))) u t (W.const (.int (-n))) u t
+    | tupleCall (e : Expr) {u u1 u2 : U} {t t1 : T V} {ev : V} {items : List V} :
+        Ev W e u t ev u1 t1 → W.iter ev u1 = some (items, u2) → Ev W (.call (.name "tuple") [e] []) u t (W.tupleOf items) u2 t1
+    | listCall (e : Expr) {u u1 u2 : U} {t t1 : T V} {ev : V} {items : List V} :
+        Ev W e u t ev u1 t1 → W.iter ev u1 = some (items, u2) → Ev W (.call (.name "list") [e] []) u t (W.listOf items) u2 t1
     | setattr (o : Expr) (a : String) (e : Expr) {u u1 u2 u3 : U} {t t1 t2 : T V} {ov v : V} :
         Ev W o u t ov u1 t1 → Ev W e u1 t1 v u2 t2 → W.setattr ov a v u2 = some u3 →
         Ev W (.call (.name "setattr") [o, Expr.str a, e] []) u t W.noneV u3 t2
@@ -124,19 +143,37 @@ inductive Clean : Expr → Prop
   | attr (o : Expr) (a : String) : Clean o → Clean (.attribute o a)
   | sub (o i : Expr) : Clean o → Clean i → Clean (.subscript o i)
   | call (f : Expr) (as : List Expr) (ks : List Keyword) : Clean f → (∀ a ∈ as, Clean a) → Clean (.call f as ks)
+  | negInt (n : Int) : Clean (.unaryOp .uSub (.const (.int n)))
   | ifExp (c a b : Expr) : Clean c → Clean a → Clean b → Clean (.ifExp c a b)
   | boolOp2 (op : BoolOpK) (a b : Expr) : Clean a → Clean b → Clean (.boolOp op [a, b])
   | other (e : Expr) : isGlue e = false → Clean e
 
 /-! ### source statements (module level, straight line) -/
 
-/-- one target of an assignment receives `v` (language reference 7.2) -/
-inductive AssignT (W : World U V) : Expr → V → U → U → Prop
-  | name (x : String) (v : V) (u : U) : ¬ isTemp x → AssignT W (.name x) v u (W.store x v u)
-  | attr (o : Expr) (a : String) {v ov : V} {u u1 u2 : U} :
-      Ev W o u [] ov u1 [] → W.setattr ov a v u1 = some u2 → AssignT W (.attribute o a) v u u2
-  | sub (o i : Expr) {v ov iv : V} {u u1 u2 u3 : U} :
-      Ev W o u [] ov u1 [] → Ev W i u1 [] iv u2 [] → W.setitem ov iv v u2 = some u3 → AssignT W (.subscript o i) v u u3
+mutual
+  /-- one target of an assignment receives `v` (language reference 7.2); a tuple / list pattern without a
+      starred item iterates `v` to exhaustion, demands exactly as many items as targets and assigns them
+      left to right (patterns nest) -/
+  inductive AssignT (W : World U V) : Expr → V → U → U → Prop
+    | name (x : String) (v : V) (u : U) : ¬ isTemp x → AssignT W (.name x) v u (W.store x v u)
+    | attr (o : Expr) (a : String) {v ov : V} {u u1 u2 : U} :
+        Ev W o u [] ov u1 [] → W.setattr ov a v u1 = some u2 → AssignT W (.attribute o a) v u u2
+    | sub (o i : Expr) {v ov iv : V} {u u1 u2 u3 : U} :
+        Ev W o u [] ov u1 [] → Ev W i u1 [] iv u2 [] → W.setitem ov iv v u2 = some u3 → AssignT W (.subscript o i) v u u3
+    | tuple (es : List Expr) {v : V} {items : List V} {u u1 u2 : U} :
+        W.iter v u = some (items, u1) → items.length = es.length → AssignEach W es items u1 u2 → AssignT W (.tuple es) v u u2
+    | list (es : List Expr) {v : V} {items : List V} {u u1 u2 : U} :
+        W.iter v u = some (items, u1) → items.length = es.length → AssignEach W es items u1 u2 → AssignT W (.list es) v u u2
+  inductive AssignEach (W : World U V) : List Expr → List V → U → U → Prop
+    | nil (u : U) : AssignEach W [] [] u u
+    | cons {t : Expr} {ts : List Expr} {v : V} {vs : List V} {u u1 u2 : U} :
+        AssignT W t v u u1 → AssignEach W ts vs u1 u2 → AssignEach W (t :: ts) (v :: vs) u u2
+end
+
+/-- tuples are what they are made of: indexing a tuple built from `items` with the integer `i` gives `items[i]` -/
+structure LawfulSeq (W : World U V) : Prop where
+  index : ∀ (items : List V) (i : Nat) (v : V) (u : U), items[i]? = some v →
+    W.getitem (W.tupleOf items) (W.const (.int (i : Int))) u = some (v, u)
 
 inductive AssignAll (W : World U V) : List Expr → V → U → U → Prop
   | nil (v : V) (u : U) : AssignAll W [] v u u
@@ -192,11 +229,15 @@ def plainIndex : Expr → Prop
   | .tuple _ => False
   | _ => True
 
-/-- the targets the fragment allows -/
+/-- the targets the fragment allows: names, attributes, plain subscripts, and tuple / list patterns of
+    such targets without a starred item, nested to any depth (starred items: C13.unpack has the index
+    arithmetic, not lifted to this semantics) -/
 inductive SimpleT : Expr → Prop
   | name (x : String) : SimpleT (.name x)
   | attr (o : Expr) (a : String) : Clean o → SimpleT (.attribute o a)
   | sub (o i : Expr) : Clean o → Clean i → plainIndex i → SimpleT (.subscript o i)
+  | tuple (es : List Expr) : (∀ e ∈ es, SimpleT e) → SimpleT (.tuple es)
+  | list (es : List Expr) : (∀ e ∈ es, SimpleT e) → SimpleT (.list es)
 
 /-- the statements of the fragment: expression statements, `pass`, `global`, assignments with any
     number of name / attribute / subscript targets, augmented assignments on the same targets,
